@@ -134,7 +134,7 @@ fn dim(tag: &str, n: usize, derived: usize) -> usize {
 
 fn gen_files() -> Vec<FileSpec> {
     let mut files: Vec<FileSpec> = Vec::new();
-    let nd = 1 + sym::choose("ndist", sym::bound(1, 2));
+    let nd = 1 + sym::choose("ndist", sym::bound(1, 1));
     let a0 = sym::choose("alg", 6);
     let mut i = 0;
     while i < nd {
@@ -326,7 +326,8 @@ pub fn h_lines() {
             match kind {
                 5 => text.extend_from_slice(b"# SHA1 (d) = 00"),
                 6 => {}
-                7 => text.extend_from_slice(b"SHA3 (d) = 00"),
+                // unknown algorithms, including near-misses of `Size`
+                7 => text.extend_from_slice([b"SHA3 (d) = 00" as &[u8], b"SIZE (d) = 5 bytes", b"size (n0) = 5 bytes"][i % 3]),
                 8 => {
                     text.extend_from_slice(b"Size (d9) = ");
                     text.extend_from_slice(&sym::any_bytes("badsize", "set:-x9", 0, 1));
